@@ -226,7 +226,8 @@ def string_heavy(r):
     parts = []
     for _ in range(r.randrange(1, 8)):
         c = r.randrange(12)
-        body = ''.join(r.choice(['a', 'b ', '{x}', '{x + 1}', '\\"', '\\n', '\n', ' ', 'é', '{', '}', '#', "'", '\\\\']) for _ in range(r.randrange(0, 6)))
+        body = ''.join(r.choice(['a', 'b ', '{x}', '{x + 1}', '\\"', '\\n', '\n', ' ', 'é', '{', '}', '#', "'", '\\\\', '{"in {x}"}', '{f(1) + g("to {y} end")}', '{a + b + "s {c + "t {d}"}"}'])
+                       for _ in range(r.randrange(0, 6)))
         if c < 6:
             parts.append(f'def s{len(parts)} := "{body}"')
         elif c < 8:
